@@ -106,7 +106,7 @@ impl Property for C15 {
             },
             Phase::Random {
                 name: "random-nevra",
-                cases: tier.pick(150_000, 3_000_000),
+                cases: tier.pick(500_000, 3_000_000),
                 strat: Arc::new(|| {
                     ("[a-z0-9][a-z0-9+._-]{0,12}", prop_oneof![Just(String::new()), "[0-9]{1,4}"], "[A-Za-z0-9._+~^]{1,10}", "[A-Za-z0-9._+~^]{1,10}", "[a-z0-9_]{1,8}")
                         .prop_map(|(name, epoch, version, release, arch)| C15Case::Nevra { name, epoch, version, release, arch })
@@ -115,7 +115,7 @@ impl Property for C15 {
             },
             Phase::Random {
                 name: "random-evr",
-                cases: tier.pick(50_000, 1_000_000),
+                cases: tier.pick(200_000, 1_000_000),
                 strat: Arc::new(|| {
                     (prop_oneof![Just(String::new()), "[0-9]{1,4}"], "[A-Za-z0-9._+~^]{1,10}", "[A-Za-z0-9._+~^]{1,10}")
                         .prop_map(|(epoch, version, release)| C15Case::Evr { epoch, version, release })
@@ -124,7 +124,7 @@ impl Property for C15 {
             },
             Phase::Random {
                 name: "arbitrary-text",
-                cases: tier.pick(100_000, 2_000_000),
+                cases: tier.pick(300_000, 2_000_000),
                 strat: Arc::new(|| prop_oneof![3 => "[:\\-.a1~^ ]{0,12}", 2 => any::<String>(), 1 => "[a-z]{0,6}"].prop_map(C15Case::Arbitrary).boxed()),
             },
         ]
@@ -235,6 +235,12 @@ fn nevra_oracle(x: &rpm::Nevra<'_>, how: &str, name: &str, epoch: &str, version:
         return Err(("nevra-roundtrip".into(), format!("({how}) accessors give {:?} for components {:?}", x.values(), (name, epoch, version, release, arch))));
     }
     let text = x.to_string();
+    // a width that the whole text already fills cannot change what a Display impl prints
+    let w = text.chars().count();
+    let padded = [format!("{x:<w$}"), format!("{x:>w$}"), format!("{x:^w$}"), format!("{x:1}")];
+    if let Some(p) = padded.iter().find(|p| **p != text) {
+        return Err(("nevra-roundtrip".into(), format!("({how}) prints as {text:?} but as {p:?} under a width that the text already fills")));
+    }
     let back = rpm::Nevra::parse(&text);
     if back.values() != x.values() {
         return Err(("nevra-roundtrip".into(), format!("({how}) {:?} prints as {:?} which parses to {:?}", x.values(), text, back.values())));
@@ -265,6 +271,11 @@ fn evr_roundtrip(epoch: &str, version: &str, release: &str) -> Result<(), (Strin
 
 fn evr_oracle(e: &rpm::Evr<'_>, how: &str, epoch: &str, version: &str, release: &str) -> Result<(), (String, String)> {
     let text = e.to_string();
+    let w = text.chars().count();
+    let padded = [format!("{e:<w$}"), format!("{e:>w$}"), format!("{e:1}")];
+    if let Some(p) = padded.iter().find(|p| **p != text) {
+        return Err(("evr-roundtrip".into(), format!("({how}) prints as {text:?} but as {p:?} under a width that the text already fills")));
+    }
     let back = rpm::Evr::parse(&text);
     if back.values() != e.values() || back != *e {
         return Err(("evr-roundtrip".into(), format!("({how}) {:?} prints as {:?} which parses to {:?}", e.values(), text, back.values())));
